@@ -40,3 +40,13 @@ check('C09', 'z3 regular-language inclusion of the real regex vs PEP 440 Appendi
 for e in ENGINES:
     if e['name'] in ('msym', 'native-driver'):
         e['serves_properties'] = sorted(set(e['serves_properties']) | {'C08', 'C09'})
+
+ENGINES.append(dict(name='kani', path='/verif/kani', serves_properties=['C17'],
+      kind_free_text='Kani 0.68 / CBMC 6.11 proof harnesses over the compiled zerv + chrono code (harness crate with a path dependency on /repo), used for machine-integer kernels'))
+check('C17', 'Kani/CBMC proofs that chrono\'s compiled calendar accessors equal an independent reference for every second 1970-2199, plus symbolic execution of the MIR of resolve_timestamp with the timestamp as a solver variable',
+      'Six Kani harnesses (year, month, day, time of day, weekday, ordinal) are decided by CBMC over all 7.26e9 seconds of 1970-2199 on the compiled chrono code, each with a cover! reachability twin. msym then runs the real tokenizer/mapping of resolve_timestamp for the 16 documented patterns and their unambiguous concatenations (pairs; thorough: triples) with the timestamp symbolic, and z3 decides that the digits returned are the field the statement names, unpadded or fixed width. ZervSchema::new is executed for var(ts(name)) of all 16 names. A native sweep (3 instants of every day x 16 patterns) validates the chrono format model.',
+      'trusted: strftime-item rendering model of chrono::format (padding), validated by the native sweep; python std models; CBMC and z3. Years after 2199 and custom % formats are outside.',
+      'DESIGN.md §5, §7 C17', engine='kani+msym')
+for e in ENGINES:
+    if e['name'] in ('msym', 'native-driver'):
+        e['serves_properties'] = sorted(set(e['serves_properties']) | {'C17'})
